@@ -3,15 +3,15 @@
 # and runs the checks against it (never touches /repo).
 set -u
 d=$1; props=${2:-all}
-wt=/tmp/wt_mut
+wt=${VERIF_WT:-/tmp/wt_mut}
 git -C $wt checkout -q -- . && git -C $wt reset -q --hard $(git -C /repo rev-parse HEAD) && git -C $wt clean -fdq
 git -C $wt apply "$d/patch.diff" || { echo "PATCH DOES NOT APPLY"; exit 3; }
-cp /verif/known_findings.txt /tmp/vr_mut/
+cp /verif/known_findings.txt ${VERIF_VR:-/tmp/vr_mut}/
 if [ "$props" = all ]; then
-  VERIF_REPO=$wt VERIF_ROOT=/tmp/vr_mut /verif/bin/asherah-verif all 2>&1 | grep -E "^\S+: \[|SELFTEST|ERR|panic" | cut -c1-300
+  VERIF_REPO=$wt VERIF_ROOT=${VERIF_VR:-/tmp/vr_mut} ${VERIF_BIN:-/verif/bin/asherah-verif} all 2>&1 | grep -E "^\S+: \[|SELFTEST|ERR|panic" | cut -c1-300
 else
   for p in ${props//,/ }; do
-    VERIF_REPO=$wt VERIF_ROOT=/tmp/vr_mut /verif/bin/asherah-verif check $p 2>&1 | grep -E "^\S+: \[|quick:|SELFTEST|ERR|panic" | cut -c1-300
+    VERIF_REPO=$wt VERIF_ROOT=${VERIF_VR:-/tmp/vr_mut} ${VERIF_BIN:-/verif/bin/asherah-verif} check $p 2>&1 | grep -E "^\S+: \[|quick:|SELFTEST|ERR|panic" | cut -c1-300
   done
 fi
 git -C $wt checkout -q -- .
